@@ -31,6 +31,9 @@ static RUNNING_TASKS: Lazy<DashMap<u64, u64>> = Lazy::new(DashMap::new);
 
 static CANCEL_TASKS: Lazy<DashSet<u64>> = Lazy::new(DashSet::new);
 
+/// Coroutine-local key of the counter (`CoroutinePool::running`) a pool coroutine is counted in.
+pub(crate) const COUNTED_IN: &str = "open-coroutine-pool-counted-in";
+
 /// The coroutine pool impls.
 #[repr(C)]
 #[derive(Debug)]
@@ -376,21 +379,10 @@ impl<'p> CoroutinePool<'p> {
             return Ok(());
         }
         let create_time = now();
-        let mut counted_in = self.running.clone();
         self.submit_co(
             move |suspender, ()| {
                 loop {
                     let pool = Self::current().expect("current pool not found");
-                    if !Arc::ptr_eq(&counted_in, &pool.running) {
-                        // this worker was stolen by the scheduler of another pool: from now
-                        // on it is a worker of the pool that runs it, not of the one that
-                        // created it
-                        _ = counted_in.fetch_update(Ordering::AcqRel, Ordering::Acquire, |n| {
-                            Some(n.saturating_sub(1))
-                        });
-                        _ = pool.running.fetch_add(1, Ordering::Release);
-                        counted_in = pool.running.clone();
-                    }
                     if pool.try_run().is_some() {
                         pool.reset_pop_fail_times();
                         continue;
@@ -438,7 +430,16 @@ impl<'p> CoroutinePool<'p> {
                 "The coroutine pool has reached its maximum size !",
             ));
         }
-        self.deref().submit_co(f, stack_size, priority).map(|_| {
+        let co = crate::co!(
+            Some(format!("{}@{}", self.name(), uuid::Uuid::new_v4())),
+            f,
+            Some(stack_size.unwrap_or(self.stack_size())),
+            priority
+        )?;
+        // the coroutine is counted in this pool until the scheduler of another pool resumes
+        // it (all pools share one coroutine queue), see `CoroutineCreator`
+        _ = co.put(COUNTED_IN, self.running.clone());
+        self.submit_raw_co(co).map(|_| {
             _ = self.running.fetch_add(1, Ordering::Release);
         })
     }
